@@ -886,7 +886,7 @@ def knot_refinement(degree, knotvector, ctrlpts, **kwargs):
             knot_tmp = knot_list[i] + ((knot_list[i + 1] - knot_list[i]) / 2.0)
             rknots.append(knot_list[i])
             rknots.append(knot_tmp)
-        rknots.append(knot_list[i + 1])
+        rknots.append(knot_list[-1])
         knot_list = rknots
 
     # Find how many knot insertions are necessary
